@@ -165,8 +165,28 @@ func errKind(err error, res apd.Condition, traps apd.Condition) string {
 	if t := res & traps; t != 0 && safeCondString(t) == msg {
 		return "trap"
 	}
+	// composite functions return the error of an internal step (flags 0): a trapped condition
+	// shows as a list of condition names, possibly behind "Quo: " style prefixes
+	if i := strings.LastIndex(msg, ": "); i >= 0 {
+		msg = msg[i+2:]
+	}
+	if msg != "" {
+		all := true
+		for _, part := range strings.Split(msg, ", ") {
+			if !condStrings[part] {
+				all = false
+			}
+		}
+		if all {
+			return "trap"
+		}
+	}
 	return "other"
 }
+
+var condStrings = map[string]bool{"overflow": true, "underflow": true, "inexact": true, "subnormal": true,
+	"rounded": true, "division undefined": true, "division by zero": true, "division impossible": true,
+	"invalid operation": true, "clamped": true}
 
 func safeCondString(c apd.Condition) (s string) {
 	defer func() {
@@ -243,6 +263,30 @@ var ctxOps = map[string]ctxOp{
 	}},
 	"ceil": {1, false, false, func(c *apd.Context, d, x, y *apd.Decimal, i int32) (apd.Condition, error, int64) {
 		r, e := c.Ceil(d, x)
+		return r, e, 0
+	}},
+	"sqrt": {1, false, false, func(c *apd.Context, d, x, y *apd.Decimal, i int32) (apd.Condition, error, int64) {
+		r, e := c.Sqrt(d, x)
+		return r, e, 0
+	}},
+	"cbrt": {1, false, false, func(c *apd.Context, d, x, y *apd.Decimal, i int32) (apd.Condition, error, int64) {
+		r, e := c.Cbrt(d, x)
+		return r, e, 0
+	}},
+	"exp": {1, false, false, func(c *apd.Context, d, x, y *apd.Decimal, i int32) (apd.Condition, error, int64) {
+		r, e := c.Exp(d, x)
+		return r, e, 0
+	}},
+	"ln": {1, false, false, func(c *apd.Context, d, x, y *apd.Decimal, i int32) (apd.Condition, error, int64) {
+		r, e := c.Ln(d, x)
+		return r, e, 0
+	}},
+	"log10": {1, false, false, func(c *apd.Context, d, x, y *apd.Decimal, i int32) (apd.Condition, error, int64) {
+		r, e := c.Log10(d, x)
+		return r, e, 0
+	}},
+	"pow": {2, false, false, func(c *apd.Context, d, x, y *apd.Decimal, i int32) (apd.Condition, error, int64) {
+		r, e := c.Pow(d, x, y)
 		return r, e, 0
 	}},
 	"floor": {1, false, false, func(c *apd.Context, d, x, y *apd.Decimal, i int32) (apd.Condition, error, int64) {
@@ -469,6 +513,14 @@ func main() {
 			rn.streamConv(g)
 		case "modes":
 			rn.streamModes(g)
+		case "roots":
+			rn.streamRoots(g)
+		case "specials":
+			rn.streamSpecials(g)
+		case "traps":
+			rn.streamTraps(g, opList)
+		case "errdec":
+			rn.streamErrDec(g)
 		default:
 			fmt.Fprintf(os.Stderr, "unknown stream %q\n", *stream)
 			os.Exit(2)
@@ -534,3 +586,5 @@ func (rn *runner) streamArith(g *gen, opList []string, extreme bool) {
 		rn.ctxCase(op, c, x, y, iarg)
 	}
 }
+
+func sortStrings(xs []string) { sort.Strings(xs) }
